@@ -59,9 +59,14 @@ def rule_wunary(roles):
     for b, bb, rv in postfix:
         key = 'WUNARY|postfix|%s' % b.name
         # the postfix operand is parsed before the operator is seen: its parse call must not be the infix loop
-        o = single_origin(trace_operand(b, rv['ops'][0], through_calls=set(TRANSPARENT_CALLS) | {'std::boxed::Box::<T>::new'}))
-        while o is not None and o.kind == 'callres' and (o.data.callee or '').endswith('Box::<T>::new'):
-            o = single_origin(trace_operand(b, o.data.args[0], through_calls=set(TRANSPARENT_CALLS)))
+        os_ = list(trace_operand(b, rv['ops'][0], through_calls=set(TRANSPARENT_CALLS) | {'std::boxed::Box::<T>::new'}))
+        if len(os_) == 1 and os_[0].kind == 'callres' and (os_[0].data.callee or '').endswith('Box::<T>::new'):
+            os_ = list(trace_operand(b, os_[0].data.args[0], through_calls=set(TRANSPARENT_CALLS)))
+        # the operand may be the primary just parsed, or that primary wrapped by tighter-binding forms built right here
+        # (`xs -> 0 -> 1 ++`: an access node around the primary); every alternative must be primary-level
+        prim = [x for x in os_ if x.kind == 'callres' and x.data.ruid in pids and not x.proj[2:]]
+        wraps = [x for x in os_ if x.kind == 'agg' and x.data[2].get('adt') == AST and x.data[2].get('variant') not in ('Binary', 'Ternary', 'Unary', 'Stmt')]
+        o = prim[0] if prim and len(prim) + len(wraps) == len(os_) and len({x.data.ruid for x in prim}) == 1 else None
         if o is not None and o.kind == 'callres' and o.data.ruid in pids:
             reach = set()
             st = [o.data.ruid]
@@ -238,7 +243,7 @@ def pair_functions(prog):
     """bodies returning a (left, right) binding-power pair, with the structure of the pair"""
     out = {}
     for b in prog.bodies:
-        if re.match(r'^(std::result::Result<)?\((i32|i64), (i32|i64)\)', b.locals[0]['ty']):
+        if re.match(r'^(std::result::Result<|std::option::Option<)?\((i32|i64), (i32|i64)\)', b.locals[0]['ty']):
             out[b.id] = b
     return out
 
@@ -259,6 +264,8 @@ def parity_separated(prog):
                 for o in lo:
                     if o.kind == 'const' and (op_const_int(o.data) or 0) < 0:
                         continue
+                    if o.kind == 'const' and op_const_int(o.data) is not None and op_const_int(o.data) > 0 and op_const_int(o.data) % 2 == 0:
+                        continue       # a reserved form with a fixed, even left power (`|>` at 60): same parity class as 2*p
                     if o.kind == 'binop' and o.data[2]['op'] in ('MulWithOverflow', 'Mul') and op_const_int(o.data[2]['b']) == 2:
                         continue
                     if o.kind == 'binop' and o.data[2]['op'] in ('Shl', 'ShlUnchecked') and op_const_int(o.data[2]['b']) == 1:
@@ -267,6 +274,8 @@ def parity_separated(prog):
                 for o in ro:
                     if o.kind == 'const' and (op_const_int(o.data) or 0) <= 0:
                         continue
+                    if o.kind == 'const' and op_const_int(o.data) is not None and op_const_int(o.data) % 2 == 1:
+                        continue       # ... and a fixed, odd right power
                     if o.kind == 'binop' and o.data[2]['op'] in ('AddWithOverflow', 'SubWithOverflow', 'Add', 'Sub') and op_const_int(o.data[2]['b']) == 1:
                         # operand a must be the left power
                         if trace_operand(b, o.data[2]['a']) == lo:
